@@ -26,7 +26,7 @@
 (* not multiply the histories.                                                           *)
 EXTENDS Table, Json
 
-CONSTANTS Mode, MaxRagged, MaxRaggedInt, MaxExtends, PoolOrder, MaxMut, MaxObs, MaxConds, UseOpts
+CONSTANTS Mode, MaxRagged, MaxRaggedInt, MaxExtends, PoolOrder, MaxMut, MaxObs, MaxConds, UseOpts, UseBlocks
 
 N_A    == << 65 >>
 N_a    == << 97 >>
@@ -115,14 +115,25 @@ RenderFmt(j) ==
 (* rest of it and the Solve, so that it does not interleave with the other calls.            *)
 CanSolve == /\ phase = "build" /\ NumMut < MaxMut /\ NumObs < MaxObs
             /\ \A n \in DOMAIN holder : holder[n].kind = "num" /\ holder[n].len = 1
-Configuring == phase = "build" /\ (stated # Unstated \/ conds # {})
+Configuring == phase = "build" /\ (stated # Unstated \/ conds # {} \/ pending.is)
+(* blocks parsed on the solver object itself: the first one on an untouched holder, a second one *)
+(* after a solve (whose preparation had no condition and no option); its horizon is stated in    *)
+(* the block.  Over every subset of the pool of at most two variables.                            *)
+BlockSets == { V \in SUBSET Names : Cardinality(V) <= 2 }
 (* options: after the horizon has been stated in the block and nowhere else, without conditions: *)
 (* trace (inside / outside), then steady; each at most once                                      *)
 OptsAllowed == UseOpts /\ conds = {} /\ stated.block.is /\ ~stated.solver.is
 CondChoices == { c \in [name : Names, sp : BOOLEAN] : c.sp => c.name \in DOMAIN holder } \ conds
 
 EditNext ==
-    \/ /\ Configuring
+    \/ /\ Configuring /\ pending.is
+       /\ \/ ~stated.block.is /\ \E h \in Horizons : StateHorizon("block", h)
+          \/ stated.block.is /\ Solve({})
+    \/ /\ ~Configuring /\ UseBlocks /\ NumMut < MaxMut /\ NumObs < MaxObs
+       /\ conds = {} /\ opts = NoOpts
+       /\ (phase = "run" \/ hist = << >>)
+       /\ \E V \in BlockSets : Block(V)
+    \/ /\ Configuring /\ ~pending.is
        /\ \/ /\ stated = Unstated /\ Cardinality(conds) < MaxConds
              /\ \E c \in CondChoices : Condition(c.name, c.sp)
           \/ stated = Unstated /\ \E h \in Horizons : StateHorizon("block", h)
